@@ -260,7 +260,12 @@ class ZMQEventLoop(EventLoop):
             if self._did_something and (not self._alarms or (self._alarms and timeout > 0)):
                 state = "idle"
                 timeout = 0
-            ready = dict(self._poller.poll(timeout * 1000))
+            if timeout > 0 and not self._poller.sockets:
+                # zmq.Poller.poll returns immediately if nothing is registered
+                time.sleep(timeout)
+                ready = {}
+            else:
+                ready = dict(self._poller.poll(timeout * 1000))
         else:
             ready = dict(self._poller.poll())
 
@@ -268,7 +273,8 @@ class ZMQEventLoop(EventLoop):
             if state == "idle":
                 self._entering_idle()
                 self._did_something = False
-            elif state == "alarm":
+            elif state == "alarm" and self._alarms[0][0] <= time.time():
+                # the poll may return (slightly) before the timeout: never call the alarm early
                 _due, _tie_break, callback = heapq.heappop(self._alarms)
                 callback()
                 self._did_something = True
